@@ -398,3 +398,30 @@ def calls_in(node, name=None, selfonly=False):
                     continue
                 out.append(n)
     return out
+
+
+def enum_paths(cfg, max_visits=2, follow_exc_to_handlers=True, limit=20000, start=None):
+    """All paths entry -> {EXIT, RAISE-EXIT}; each node at most `max_visits` times per path.
+    Yields (list of (node, edgekind_taken_out_of_node)), terminal node)."""
+    start = start or cfg.entry
+    out = []
+    count = [0]
+
+    def dfs(n, path, visits):
+        if count[0] > limit:
+            raise RuntimeError("path enumeration limit exceeded")
+        if n is cfg.exit or n is cfg.raise_exit:
+            count[0] += 1
+            out.append((list(path), n))
+            return
+        v = visits.get(n.id, 0)
+        if v >= max_visits:
+            return
+        visits[n.id] = v + 1
+        for (m, k) in n.succ:
+            path.append((n, k))
+            dfs(m, path, visits)
+            path.pop()
+        visits[n.id] = v
+    dfs(start, [], {})
+    return out
